@@ -5,6 +5,7 @@
    (The delay-adjusted and kernel trainers are run through C18/DelayAdjExec.run_case.) *)
 From Coq Require Import List ZArith Bool PrimFloat.
 From Inferno Require Import Base.Num Base.NumF C08.Stdp C09.Split.
+From Inferno Require C18.DelayAdj.
 Import ListNotations.
 
 Definition fl := PrimFloat.float.
@@ -60,3 +61,22 @@ Definition run_stdp (c : config FN) (k : nat) (B : nat) (inps : list (list (bool
     Nd [L 0; ser_list ser_parts outs; ser_list ser_parts (accs (None, None) outs);
         ser_part (bind_update FN b w0 (acc_all FN outs)); ser_float (bind_forward FN b w0 (acc_all FN outs))]
   else Nd [L 1; L 2].
+
+(* ------------------------------------------------------------------ kernel trainers with custom half kernels
+   The C18 model of a trained cell (event monitors, t_delta, kernel_fwd) run with two kernels of the two_sided family and
+   one of the four batch reductions.  Per step: the two monitors' tensors and the (pos, neg) parts of every element. *)
+Definition kredk (z : Z) : kred := if (z =? 0)%Z then KSum else if (z =? 1)%Z then KMean else if (z =? 2)%Z then KAmax else KAmin.
+Definition kbits (l : list Z) : list bool := map (fun z => negb (z =? 0)%Z) l.
+Definition kstep (pre post : list Z) (delays : list fl) : DelayAdj.stepin FN :=
+  DelayAdj.mkIn FN (kbits pre) (kbits post) delays (@DelayAdj.SigNone FN).
+Definition ser_nv (v : DelayAdj.nv FN) : tree := match v with None => Nd [L 3; L 0; L 0]%Z | Some x => ser_float x end.
+Definition ser_kstep (r : DelayAdj.cellstate FN * list (DelayAdj.parts FN)) : tree :=
+  Nd [ser_option (ser_list ser_nv) (DelayAdj.cs_pre FN (fst r)); ser_option (ser_list ser_nv) (DelayAdj.cs_post FN (fst r));
+      ser_list ser_parts (snd r)].
+Definition run_kernel_cell (B npre npost : nat) (syn : list (list (nat * nat))) (dt : fl) (rk : Z) (adjusted : bool)
+           (p1 p2 p3 p4 q1 q2 q3 q4 : fl) (steps : list (DelayAdj.stepin FN)) : tree :=
+  ser_list ser_kstep
+    (DelayAdj.cell_run FN (kreduce FN (kredk rk))
+       (DelayAdj.mkCfg FN B npre npost syn dt
+          ((if adjusted then DelayAdj.TDaKernel FN else DelayAdj.TKernel FN) (two_sided FN p1 p2 p3 p4) (two_sided FN q1 q2 q3 q4)))
+       (DelayAdj.mkCS FN None None) steps).
